@@ -32,6 +32,11 @@ class HarnessError(Exception):
     pass
 
 
+class BudgetExceeded(BaseException):
+    """raised inside a test function to stop a run whose wall-clock budget is used up
+    (BaseException: Hypothesis lets it through instead of treating it as a failure)"""
+
+
 class HChooser(Chooser):
     """Chooser backed by hypothesis draws.  Drawing each choice separately costs
     ~0.1 ms; instead entropy is drawn in chunks of bytes (one cheap draw each)
@@ -152,28 +157,36 @@ def hyp_settings(max_examples, shrink=True):
     )
 
 
-def run_property(case_fn, seed, max_examples, stats, budget_s=None, shrink=True):
-    """case_fn(chooser, stats) is one generated case; raises Violation on an
-    oracle failure.  Returns None or the (shrunk) Violation."""
-    deadline = time.time() + budget_s if budget_s else None
+def run_property(case_fn, seed, max_examples, stats, budget_s=None, shrink=True, batches=8):
+    """case_fn(chooser, stats) is one generated case; raises Violation on an oracle
+    failure.  Returns None or the (shrunk) Violation.
 
-    @hypothesis.seed(seed)
-    @hyp_settings(max_examples, shrink)
-    @given(st.data())
-    def test(data):
-        if deadline and time.time() > deadline and not getattr(test, "failing", False):
+    The examples are run as a sequence of independent Hypothesis runs (batches with
+    derived seeds).  The wall-clock budget is only consulted *between* batches: a
+    budget hit truncates the run (recorded in evidence), it never influences what a
+    batch generates, so every batch is a pure function of (code, seed)."""
+    t_end = time.time() + budget_s if budget_s else None
+    per = max(20, -(-max_examples // batches))  # every Hypothesis run starts with its simplest example: keep batches large
+    done = 0
+    b = 0
+    while done < max_examples:
+        if t_end and time.time() > t_end and b > 0:
             stats.truncated = True
-            return
-        try:
-            case_fn(HChooser(data), stats)
-        except Violation:
-            test.failing = True
-            raise
+            break
+        n = min(per, max_examples - done)
 
-    try:
-        test()
-    except Violation as v:
-        return v
+        @hypothesis.seed(derive_seed(seed, 1000 + b))
+        @hyp_settings(n, shrink)
+        @given(st.data())
+        def test(data):
+            case_fn(HChooser(data), stats)
+
+        try:
+            test()
+        except Violation as v:
+            return v
+        done += n
+        b += 1
     return None
 
 
